@@ -407,6 +407,159 @@ def replay_puls(case):
     return bool(bad), '; '.join(bad) or 'blocks parse as specified'
 
 
+def _words(*ws):
+    out = []
+    for w in ws:
+        out += [w % 256, w // 256]
+    return out
+
+
+def _pzx_block(tag, body):
+    n = len(body)
+    return [ord(ch) for ch in tag] + [n % 256, n // 256 % 256, n // 65536 % 256, n // 16777216] + body
+
+
+def check_tzx(item):
+    """('tzx', block id): a TZX block with symbolic fields, parsed by _get_tzx_block, and the PZX blocks (PULS, DATA, PAUS) that
+    describe the same signal, parsed by _get_pzx_block, followed by a closing pulse block: get_edges gives the same edge list"""
+    _, bid = item
+    st = Stats()
+    res = new_res()
+    import skoolkit.tape as tape
+    name = 'TZX block 0x%02X against the equivalent PZX blocks' % bid
+    state = {}
+
+    def fn(path):
+        f = {}
+        S = lambda n, lo, hi: f.setdefault(n, sym_int(n, lo, hi))
+        payload = [0xA5, data_byte('b1')]
+        pz = []
+        lp = lambda c, d: _words(0x8000 + c, 0x8000, d)        # PULS entry in its count + long-duration form: any 16-bit duration
+        if bid == 0x11:
+            pilot, s1_, s2_, zero, one = S('pilot', 1, 65535), S('sync1', 1, 65535), S('sync2', 1, 65535), S('zero', 1, 65535), S('one', 1, 65535)
+            plen, ub, pause = S('pilot_len', 1, 2), S('used_bits', 1, 8), 0          # no pause: TZX and PZX render a pause differently (edge at its end / level set at its start)
+            body = [0x11] + _words(pilot, s1_, s2_, zero, one, plen) + [ub] + _words(pause) + [len(payload), 0, 0] + payload
+            pz.append(_pzx_block('PULS', lp(plen, pilot) + lp(1, s1_) + lp(1, s2_)))
+        elif bid == 0x14:
+            zero, one = S('zero', 1, 65535), S('one', 1, 65535)
+            ub, pause = S('used_bits', 1, 8), 0
+            body = [0x14] + _words(zero, one) + [ub] + _words(pause) + [len(payload), 0, 0] + payload
+        elif bid == 0x12:
+            plen, n = S('pulse', 1, 65535), S('count', 1, 3)
+            body = [0x12] + _words(plen, n)
+            pz.append(_pzx_block('PULS', lp(n, plen)))
+        else:
+            p1, p2, p3 = S('p1', 1, 0x7FFF), S('p2', 1, 0x7FFF), S('p3', 1, 0x7FFF)
+            body = [0x13, 3] + _words(p1, p2, p3)
+            pz.append(_pzx_block('PULS', _words(p1, p2, p3)))
+        if bid in (0x11, 0x14):
+            bits = 8 * (len(payload) - 1) + ub
+            # a PZX DATA block states its initial level: the level the preceding pulses leave the signal at (TZX has no such field)
+            level = (plen + 2) % 2 if bid == 0x11 else 0
+            pz.append(_pzx_block('DATA', [bits % 256, bits // 256, 0, level * 128] + _words(0) + [2, 2] + _words(zero, zero, one, one) + payload))
+        closing = _pzx_block('PULS', _words(1000, 1000))
+        # TZX side
+        end, tblock = tape._get_tzx_block(body, 0, 1, True, True)
+        cend, cblock, _r = tape._get_pzx_block(closing, 0, 9, False)
+        tz_blocks = [tblock, cblock]
+        # PZX side
+        pz_blocks = []
+        for k, raw in enumerate(pz):
+            e_, b_, _r = tape._get_pzx_block(raw, 0, k + 1, False)
+            pz_blocks.append(b_)
+        _e, cblock2, _r = tape._get_pzx_block(closing, 0, 9, False)
+        pz_blocks.append(cblock2)
+        outs = []
+        for blocks in (tz_blocks, pz_blocks):
+            blocks = [b for b in blocks if b.timings]
+            for b in blocks:
+                b.keys = None
+            outs.append(tape.get_edges(blocks, 0, 0))
+        state['fields'] = f
+        return end, len(body), outs
+
+    def on(p, out):
+        res['obligations'] += 1
+        def vals(mod):
+            return {str(d): mod[d].as_long() for d in mod.decls() if hasattr(mod[d], 'as_long') and not str(d).startswith(('q!', 'r!', 'let!', 'ti!'))} if mod is not None else {}
+        if isinstance(out, tuple) and out[0] == 'exception':
+            r, mod = p.check(model=True)
+            res['violations'].append(dict(key='%s:exception' % name, text='%s raises %r with %r' % (name, out[1], vals(mod)), case=dict(kind='tzx', bid=bid, vals=vals(mod))))
+            return
+        end, blen, ((te, tdb), (pe, pdb)) = out
+        structural, diffs, names = [], [], []
+        if end != blen:
+            structural.append('TZX block of %d bytes ends at %r' % (blen, end))
+        if len(te) != len(pe):
+            structural.append('%d edges from the TZX block, %d from the PZX blocks' % (len(te), len(pe)))
+        else:
+            for k, (a, b) in enumerate(zip(te, pe)):
+                diffs.append(ne(a, b)); names.append('edge %d' % k)
+        td = [(d.start, d.end) for d in tdb if d.data]
+        pd = [(d.start, d.end) for d in pdb if d.data]
+        if td != pd:
+            structural.append('data block ranges %r (TZX) and %r (PZX)' % (td, pd))
+        if structural:
+            r, mod = p.check(model=True); which = structural
+        else:
+            r, mod, which = p.check_any(diffs, names)
+        if r == 'unknown':
+            res['inconclusive'].append(name); return
+        if r == 'sat':
+            res['violations'].append(dict(key='%s:%s' % (name, which[0][:40]), text='%s: %s with %r' % (name, '; '.join(which[:3]), vals(mod)), case=dict(kind='tzx', bid=bid, vals=vals(mod))))
+            return
+        res['discharged'] += 1
+        res['nontrivial'] += 1
+        if not res['samples']:
+            res['samples'].append({'item': name, 'edges': len(te), 'verdict': 'unsat'})
+
+    try:
+        explore(fn, stats=st, on_path=on, max_paths=5000)
+    except Inconclusive as e:
+        res['inconclusive'].append('%s: %s' % (name, e))
+    return finish(res, st)
+
+
+def replay_tzx(case):
+    import skoolkit.tape as tape
+    bid, v = case['bid'], case.get('vals') or {}
+    g = lambda n, d=1: v.get(n, d)
+    payload = [0xA5, g('b1', 0)]
+    pz = []
+    lp = lambda c, d: _words(0x8000 + c, 0x8000, d)
+    if bid == 0x11:
+        body = [0x11] + _words(g('pilot'), g('sync1'), g('sync2'), g('zero'), g('one'), g('pilot_len')) + [g('used_bits', 8)] + _words(g('pause_ms', 0)) + [2, 0, 0] + payload
+        pz.append(_pzx_block('PULS', lp(g('pilot_len'), g('pilot')) + lp(1, g('sync1')) + lp(1, g('sync2'))))
+    elif bid == 0x14:
+        body = [0x14] + _words(g('zero'), g('one')) + [g('used_bits', 8)] + _words(g('pause_ms', 0)) + [2, 0, 0] + payload
+    elif bid == 0x12:
+        body = [0x12] + _words(g('pulse'), g('count'))
+        pz.append(_pzx_block('PULS', lp(g('count'), g('pulse'))))
+    else:
+        body = [0x13, 3] + _words(g('p1'), g('p2'), g('p3'))
+        pz.append(_pzx_block('PULS', _words(g('p1'), g('p2'), g('p3'))))
+    if bid in (0x11, 0x14):
+        bits = 8 + g('used_bits', 8)
+        level = (g('pilot_len') + 2) % 2 if bid == 0x11 else 0
+        pz.append(_pzx_block('DATA', [bits % 256, bits // 256, 0, level * 128] + _words(0) + [2, 2] + _words(g('zero'), g('zero'), g('one'), g('one')) + payload))
+    closing = _pzx_block('PULS', _words(1000, 1000))
+    try:
+        tz = [tape._get_tzx_block(body, 0, 1, True, True)[1], tape._get_pzx_block(closing, 0, 9, False)[1]]
+        pzb = [tape._get_pzx_block(raw, 0, k + 1, False)[1] for k, raw in enumerate(pz)] + [tape._get_pzx_block(closing, 0, 9, False)[1]]
+        outs = []
+        for blocks in (tz, pzb):
+            blocks = [b for b in blocks if b.timings]
+            for b in blocks:
+                b.keys = None
+            outs.append(tape.get_edges(blocks, 0, 0))
+    except Exception as e:
+        return True, 'raises %r' % e
+    (te, tdb), (pe, pdb) = outs
+    if list(te) != list(pe):
+        return True, 'edges differ: TZX %r..., PZX %r...' % (list(te)[:12], list(pe)[:12])
+    return False, 'same edges'
+
+
 def check_files(item):
     """('files', nbytes): write_tap/parse_tap, write_pzx/parse_pzx, TZX 0x10: bytes and edges"""
     _, nbytes = item
@@ -509,7 +662,7 @@ def check_files(item):
 
 
 def work(item):
-    return {'edges': check_edges, 'files': check_files, 'puls': check_puls}[item[0]](item)
+    return {'edges': check_edges, 'files': check_files, 'puls': check_puls, 'tzx': check_tzx}[item[0]](item)
 
 
 # ---------------------------------------------------------------------------
@@ -517,6 +670,8 @@ def replay(case):
     import skoolkit.tape as tape
     if case['kind'] == 'puls':
         return replay_puls(case)
+    if case['kind'] == 'tzx':
+        return replay_tzx(case)
     if case['kind'] == 'files':
         if 'data' not in case:
             return False, 'no input'
@@ -638,6 +793,7 @@ def main():
     if args.tier == 'thorough':
         items += [('puls', (f1, f2, f3), 0) for f1 in PULS_FORMS for f2 in PULS_FORMS for f3 in PULS_FORMS]
         items += [('puls', ('count',), bits) for bits in range(1, 17)]
+    items += [('tzx', bid) for bid in (0x11, 0x12, 0x13, 0x14)]
     items += [('files', n) for n in ((1, 2) if args.tier == 'quick' else (1, 2, 3))]
     if args.only:
         items = [i for i in items if args.only in harness.item_name(i)]
